@@ -93,10 +93,16 @@ def gen_inherit(rng):
         new_vars['s2'] = 'variable(0.1)'
     elif kind == 'remove':
         term = rng.choice(['a_k', 'in_r', 'r_in'])
+        if rng.random() < 0.5:
+            # a longer identifier that starts with the removed one stands in the same equation (a_k2 next to a_k)
+            term = 'a_k'
+            base_eqs[0] = base_eqs[0] + ' + a_k2*kk'
+            base_vars['a_k2'] = 0.4375
+            exp_eqs = list(base_eqs)
         # remove the whole signed term wherever it stands (string removal of "<sign> term", whole identifiers)
         pat = {'a_k': '+ a_k', 'in_r': '- in_r', 'r_in': '+ r_in'}[term]
         if any(pat in e for e in base_eqs):
-            edits['remove'] = [pat]
+            edits['remove'] = [pat] if rng.random() < 0.5 else pat       # list, or the bare string a user may write
             exp_eqs = [re.sub(r'(?<![A-Za-z0-9_])' + re.escape(pat) + r'(?![A-Za-z0-9_])', '', e) for e in exp_eqs]
         else:
             kind = 'vars-only'
@@ -127,7 +133,7 @@ def inherit_yaml(inh):
         for k, v in inh['edits'].items():
             if k == 'replace':
                 L += ['    replace:'] + [f'      {o}: "{n}"' for o, n in v.items()]
-            elif k in ('add', 'remove'):
+            elif k in ('add', 'remove') and isinstance(v, list):
                 L += [f'    {k}:'] + [f'      - "{x}"' for x in v]
             else:
                 L += [f'    {k}: "{v}"']
@@ -237,6 +243,9 @@ class C15(Check):
             for (rn, ro), ri in sorted(net.inst.items()):
                 for rv in models.LIB[ri['lib']]['const']:
                     cands.append(f'{rn}/{ro}/{rv}')
+            # initial values of state variables are rewritten too, handed over as numpy scalars (an element of an array)
+            scands = [f'{rn}/{ro}/{rv}' for (rn, ro), ri in sorted(net.inst.items()) for rv in models.LIB[ri['lib']]['state']
+                      if not ri['lib'].startswith('c')]
             decoy = models.gen_net(rng, n_nodes=rng.randint(6, 8), per_node_ops=True, libs=('lin', 'sat', 'osc', 'leak'), build='python')
             for e in _all_edges(decoy):
                 e[2] = {k: v for k, v in e[2].items() if v is not None}
@@ -246,6 +255,8 @@ class C15(Check):
             samepath = {'decoy': decoy if rng.random() < 0.7 else None, 'load_decoy': rng.random() < 0.5,
                         'rewrites': [[rng.choice(cands), rng.choice([1.5, 2.5, 3.5, 0.5, 1.25, 2.25, 3.25, 0.25, 2.75, 1.75])]
                                      for _ in range(rng.randint(0, 2))] if cands else []}
+            if cands and scands and rng.random() < 0.35:
+                samepath['rewrites'].append([rng.choice(scands), rng.choice([0.375, -0.625, 0.875, 0.3, -0.7]), 'np.float64'])
         return {'mode': 'store', 'spec': spec, 'gens': gens, 'fault': fault, 'restart': restart, 'samepath': samepath}
 
     # ---------------------------------------------------------------------------------------------------
@@ -497,10 +508,13 @@ class C15(Check):
             import shutil
             shutil.copy(path, 'model_snap0.yaml')      # the observer works asynchronously: it gets the file as it is NOW
             obsv.submit(None, 'obs_yaml', path=os.path.join(cwd, f'model_snap0/{name}')); jobs.append('pristine process, after overwriting')
-            for key, val in sp.get('rewrites', []):
+            for key, val, *typed in sp.get('rewrites', []):
                 try:
                     size0 = os.path.getsize(path)
-                    cur.update_var(node_vars={key: val})
+                    if typed:
+                        import numpy as np
+                        bump('numpy_scalar_override')
+                    cur.update_var(node_vars={key: np.float64(val) if typed else val})
                     cur.to_yaml(path)
                     applied[key] = val
                     if os.path.getsize(path) == size0:
